@@ -53,6 +53,8 @@ func main() {
 		os.Exit(cmdApphash(os.Args[2:]))
 	case "minimise":
 		os.Exit(cmdMinimise(os.Args[2:]))
+	case "abcidiff":
+		os.Exit(cmdABCIDiff(os.Args[2:]))
 	default:
 		fmt.Fprintln(os.Stderr, "unknown command", os.Args[1])
 		os.Exit(2)
@@ -174,6 +176,22 @@ func cmdWorker(args []string) int {
 			r.Stats.Probes["c19_cross_process_replays"]++
 			if msg != "" {
 				r.Viols = append(r.Viols, ViolationRec{Property: "C19", Clause: "C19.b", Block: 0, Step: "cross-process", Detail: msg, Class: "app-hash-differs-across-processes"})
+			}
+		}
+		if *prop == "C19" && run%4 == 1 && len(r.Viols) == 0 {
+			// (d) fidelity of the stubbed runTx: a user-message-only schedule on both executors
+			ds := GenSchedule("C19", *seed+1_000_003, run, abciProfile())
+			nb, msg, err := runABCIDifferential(ds)
+			if err != nil {
+				fmt.Fprintln(os.Stderr, err)
+				return 2
+			}
+			r.Stats.Clauses["C19.d"] += nb
+			r.Stats.Probes["c19_abci_differential_blocks"] += nb
+			if msg != "" {
+				path := filepath.Join(*out, fmt.Sprintf("abci-diff-%d-%d.json", *seed, run))
+				_ = saveJSON(path, &ReplayFile{Schedule: *ds, Note: "abci differential: " + msg})
+				r.Viols = append(r.Viols, ViolationRec{Property: "C19", Clause: "C19.d", Block: 0, Step: "abci-differential", Detail: msg + " (schedule: " + path + "; replay with: verif-sim abcidiff <file>)", Class: "stub-and-abci-executors-disagree"})
 			}
 		}
 		rec := RunRecord{Run: run, Stats: r.Stats, WallMs: time.Since(t0).Milliseconds(), NBlocks: len(s.Blocks)}
@@ -851,7 +869,7 @@ func init() {
 
 func init() {
 	nontrivialRule["C19"] = "every block of the run was executed three times (two sibling branches and the committed execution) and the transcripts compared"
-	expectedProbes["C19"] = []string{"c19_validator_with_3_assets", "c19_validator_with_4_reward_indexes", "c19_cross_process_replays"}
+	expectedProbes["C19"] = []string{"c19_validator_with_3_assets", "c19_validator_with_4_reward_indexes", "c19_cross_process_replays", "c19_abci_differential_blocks"}
 }
 
 // cmdMinimise: verif-sim minimise <in.json> <out.json> ; shrinks the first violation of the schedule's property.
@@ -879,5 +897,35 @@ func cmdMinimise(args []string) int {
 	}
 	_ = saveJSON(args[1], &ReplayFile{Schedule: *ms, Violation: mv})
 	fmt.Printf("minimised to %d blocks: %s [%s]\n", len(ms.Blocks), mv.Clause, mv.Class)
+	return 0
+}
+
+// cmdABCIDiff: verif-sim abcidiff <schedule.json> | -seed S -run R  - runs the differential executor on one schedule.
+func cmdABCIDiff(args []string) int {
+	fs := flag.NewFlagSet("abcidiff", flag.ExitOnError)
+	seed := fs.Uint64("seed", 1, "")
+	run := fs.Uint64("run", 1, "")
+	_ = fs.Parse(args)
+	var s *Schedule
+	if fs.NArg() > 0 {
+		rf, err := loadReplay(fs.Arg(0))
+		if err != nil {
+			fmt.Fprintln(os.Stderr, err)
+			return 2
+		}
+		s = &rf.Schedule
+	} else {
+		s = GenSchedule("C19", *seed+1_000_003, *run, abciProfile())
+	}
+	nb, msg, err := runABCIDifferential(s)
+	if err != nil {
+		fmt.Fprintln(os.Stderr, err)
+		return 2
+	}
+	if msg != "" {
+		fmt.Printf("abcidiff: DISAGREEMENT after %d blocks: %s\n", nb, msg)
+		return 1
+	}
+	fmt.Printf("abcidiff: %d blocks identical on both executors\n", nb)
 	return 0
 }
